@@ -57,14 +57,43 @@ def lattice():
     for arity in (3, 4):
         pts.append({"entry": "generic.sink_serialize", "arity": arity, "logical": None, "delimited": True,
                     "frame_size": None, "flow": None})
-    return pts
+    # the same lattice with namespace declarations switched on, for the entry points that take a sink / container
+    # carrying bindings (declaration rows count towards frames and share the lookup tables)
+    with_ns = []
+    for pt in pts:
+        if pt.get("form") in ("sink", "container") or pt["entry"] in (
+                "generic.grouped_stream_to_file", "rdflib.grouped_stream_to_file", "rdflib.serialize_options", "rdflib.serialize_stream"):
+            if pt["flow"] in (None, "BoundedFrameFlow:lt", "ManualFrameFlow:lt", "GraphsFrameFlow:lt", "DatasetsFrameFlow:lt"):
+                with_ns.append({**pt, "ns": True})
+    return pts + with_ns
+
+
+BINDINGS = [["ex", "http://ex.org/"], ["", "http://ex.org/ns2/"], ["dt", "http://dt.org/"]]
 
 
 def cfg_of(pt, phys):
     integ = pt["entry"].split(".")[0]
     return {"phys": phys, "logical": pt["logical"], "delimited": pt["delimited"], "frame_size": pt["frame_size"],
             "flow": pt["flow"], "preset": [16, 8, 8],
-            "params": {"generalized": integ == "generic", "rdf_star": integ == "generic", "stream_name": ""}}
+            "params": {"generalized": integ == "generic", "rdf_star": integ == "generic", "stream_name": "",
+                       "namespace_declarations": bool(pt.get("ns"))}}
+
+
+def bound(pt, obj, integ):
+    """Attach the fixed bindings to a sink / container when the point asks for namespace declarations."""
+    if not pt.get("ns"):
+        return obj
+    if integ == "generic":
+        from pyjelly.integrations.generic.generic_sink import IRI
+
+        for p_, ns in BINDINGS:
+            obj.bind(p_, IRI(ns))
+    else:
+        import rdflib
+
+        for p_, ns in BINDINGS:
+            obj.bind(p_, rdflib.URIRef(ns))
+    return obj
 
 
 def execute(pt, stmts):
@@ -83,12 +112,12 @@ def execute(pt, stmts):
                 if integ == "generic":
                     from pyjelly.integrations.generic.serialize import stream_frames
 
-                    data = pyj.generic_sink(stmts) if pt["form"] == "sink" else (s for s in pyj.conv_stmts(stmts, "generic"))
+                    data = bound(pt, pyj.generic_sink(stmts), "generic") if pt["form"] == "sink" else (s for s in pyj.conv_stmts(stmts, "generic"))
                 else:
                     from pyjelly.integrations.rdflib.serialize import stream_frames
 
                     if pt["form"] == "container":
-                        data = scen.rdflib_container(stmts, "TRIPLES" if arity == 3 else "QUADS")
+                        data = bound(pt, scen.rdflib_container(stmts, "TRIPLES" if arity == 3 else "QUADS"), "rdflib")
                     else:
                         data = (s for s in pyj.conv_stmts(stmts, "rdflib"))
                 out = pyj.frames_to_bytes(stream_frames(stream, data), pt["delimited"])
@@ -96,12 +125,12 @@ def execute(pt, stmts):
             if name == "serialize_stream":
                 cfg = cfg_of(pt, pt["phys"])
                 stream = pyj.make_stream(cfg, "rdflib")
-                g = scen.rdflib_container(stmts, "TRIPLES" if arity == 3 else "QUADS")
+                g = bound(pt, scen.rdflib_container(stmts, "TRIPLES" if arity == 3 else "QUADS"), "rdflib")
                 out = g.serialize(format="jelly", encoding="jelly", stream=stream, options=stream.options)
                 return ("ok", out, pt["delimited"], cap.streams, projection)
             if name == "serialize_options":
                 cfg = cfg_of(pt, "TRIPLES")
-                g = scen.rdflib_container(stmts, "TRIPLES" if arity == 3 else "QUADS")
+                g = bound(pt, scen.rdflib_container(stmts, "TRIPLES" if arity == 3 else "QUADS"), "rdflib")
                 out = g.serialize(format="jelly", encoding="jelly", options=pyj.make_options(cfg))
                 return ("ok", out, pt["delimited"], cap.streams, projection)
             buf = io.BytesIO()
@@ -118,9 +147,9 @@ def execute(pt, stmts):
                 ser.flat_stream_to_file((s for s in pyj.conv_stmts(stmts, integ)), buf, options=opts)
             elif name == "grouped_stream_to_file":
                 if integ == "generic":
-                    ser.grouped_stream_to_file((x for x in [pyj.generic_sink(stmts)]), buf, options=opts)
+                    ser.grouped_stream_to_file((x for x in [bound(pt, pyj.generic_sink(stmts), "generic")]), buf, options=opts)
                 else:
-                    ser.grouped_stream_to_file((x for x in [scen.rdflib_container(stmts, "TRIPLES" if arity == 3 else "QUADS")]),
+                    ser.grouped_stream_to_file((x for x in [bound(pt, scen.rdflib_container(stmts, "TRIPLES" if arity == 3 else "QUADS"), "rdflib")]),
                                                buf, options=opts)
             return ("ok", buf.getvalue(), True, cap.streams, projection)
         except Exception as exc:  # noqa: BLE001
